@@ -80,9 +80,9 @@ Print Assumptions C09_cache_irrelevant.
     file one after the other (K2's semgrep rule already matches a flagged file, and K1 creates no new match). *)
 Example C09_example_hyps :
   let fs := [([97%N], [6%N; 6%N]); ([98%N], [1%N])] in
-  prefilter_stable run_tables_v bytes toy_parse toy_code w9_T toy_S toy_R toy_diff toy_W toy_fsel w9_cfg (fun _ => [])
+  prefilter_stable tables_pinned bytes toy_parse toy_code w9_T toy_S toy_R toy_diff toy_W toy_fsel w9_cfg (fun _ => [])
     (prefilter_of toy_S w9_cfg [w9_K2; w9_K1] fs) [w9_K2; w9_K1] fs /\
   NoDup (map cid [w9_K2; w9_K1]) /\
-  lookup (final_fs (w9_run run_tables_v [w9_K2; w9_K1] fs [])) [97%N] = Some [1%N; 6%N] /\
-  lookup (final_fs (w9_run run_tables_v [w9_K2; w9_K1] fs [])) [98%N] = Some [2%N].
+  lookup (final_fs (w9_run tables_pinned [w9_K2; w9_K1] fs [])) [97%N] = Some [1%N; 6%N] /\
+  lookup (final_fs (w9_run tables_pinned [w9_K2; w9_K1] fs [])) [98%N] = Some [2%N].
 Proof. vm_compute. repeat split; try reflexivity; repeat constructor; simpl; intuition discriminate. Qed.
